@@ -36,11 +36,9 @@ Proof.
     cbn [snd] in *; [destruct f|]; symmetry; exact H.
 Qed.
 
-Definition is_vnone (r : vres) : bool := match r with VNone => true | _ => false end.
-
-(** The [failure] list of a verification step: the non-None verdicts, in block order. *)
-Definition failures (l : list secblk) : list vres :=
-  filter (fun r => negb (is_vnone r)) (map blk_result l).
+(** The [failure] list of a verification step: one code per block that does not verify, in block order. *)
+Definition failures (l : list secblk) : list N :=
+  fold_right (fun s rs => push (blk_result s) rs) [] l.
 
 Lemma verify_all_failures : forall c l v, snd (verify_all c l v) = failures l.
 Proof.
@@ -49,79 +47,56 @@ Proof.
   - pose proof (verify_block_result c s v) as Hr.
     destruct (verify_block c s v) as [v1 r]. cbn [snd] in Hr. subst r.
     specialize (IH v1). destruct (verify_all c rest v1) as [v2 rs]. cbn [snd] in *. subst rs.
-    unfold failures. cbn [map filter]. destruct (blk_result s); reflexivity.
+    reflexivity.
 Qed.
+
+Lemma step_code_none : forall r, step_code r = None <-> r = VNone.
+Proof. intros [|code|]; cbn; split; intros; congruence. Qed.
 
 Lemma failures_nil : forall l, failures l = [] <-> (forall s, In s l -> blk_result s = VNone).
 Proof.
-  induction l as [|s rest IH]; unfold failures in *; cbn [map filter].
+  induction l as [|s rest IH]; cbn [failures fold_right].
   - split; [intros _ x []|reflexivity].
-  - destruct (blk_result s) eqn:E; cbn [is_vnone negb].
-    + rewrite IH. split.
+  - fold (failures rest). unfold push. destruct (step_code (blk_result s)) eqn:E.
+    + split; [discriminate|]. intro H. specialize (H s (or_introl eq_refl)).
+      apply step_code_none in H. congruence.
+    + apply step_code_none in E. rewrite IH. split.
       * intros H x [<-|Hx]; [exact E|apply H, Hx].
       * intros H x Hx. apply H. right. exact Hx.
-    + split; [discriminate|]. intro H. specialize (H s (or_introl eq_refl)). congruence.
-    + split; [discriminate|]. intro H. specialize (H s (or_introl eq_refl)). congruence.
 Qed.
 
-Lemma failures_no_vnone : forall l r, In r (failures l) -> r <> VNone.
+Lemma failures_in : forall l code,
+  In code (failures l) -> exists s, In s l /\ step_code (blk_result s) = Some code.
 Proof.
-  intros l r H. unfold failures in H. apply filter_In in H. destruct H as [_ H].
-  destruct r; [discriminate|intros; discriminate|intros; discriminate].
-Qed.
-
-Lemma failures_in : forall l r, In r (failures l) -> exists s, In s l /\ blk_result s = r.
-Proof.
-  intros l r H. unfold failures in H. apply filter_In in H. destruct H as [H _].
-  apply in_map_iff in H. destruct H as [s [E Hs]]. exists s. split; assumption.
+  induction l as [|s rest IH]; intros code H; [destruct H|].
+  cbn [failures fold_right] in H. fold (failures rest) in H. unfold push in H.
+  destruct (step_code (blk_result s)) eqn:E.
+  - destruct H as [<-|H].
+    + exists s. split; [left; reflexivity|exact E].
+    + destruct (IH code H) as [x [Hx Ex]]. exists x. split; [right; exact Hx|exact Ex].
+  - destruct (IH code H) as [x [Hx Ex]]. exists x. split; [right; exact Hx|exact Ex].
 Qed.
 
 (** * [max(failure)] *)
 
-Lemma max_failure_none : forall l, max_failure l = None <-> l = [].
+Lemma max_code_none : forall l, max_code l = None <-> l = [].
 Proof. intros [|r rest]; cbn; split; intros; congruence. Qed.
 
-Lemma max_failure_codes : forall l,
-  l <> [] ->
-  (forall r, In r l -> exists c, r = VCode c /\ sec_reason c = true) ->
-  exists m, max_failure l = Some (MaxCode m) /\ sec_reason m = true.
-Proof.
-  induction l as [|r rest IH]; intros Hne Hall; [congruence|].
-  destruct (Hall r (or_introl eq_refl)) as [c [-> Hc]].
-  destruct rest as [|r2 rest2].
-  - exists c. split; [reflexivity|exact Hc].
-  - destruct IH as [m [Em Hm]]; [discriminate|intros x Hx; apply Hall; right; exact Hx|].
-    remember (r2 :: rest2) as l2. cbn [max_failure]. rewrite Em. exists (N.max c m). split; [reflexivity|].
-    unfold sec_reason in *. lia.
-Qed.
+Lemma max_code_some : forall l, l <> [] -> exists m, max_code l = Some m.
+Proof. intros [|r rest] H; [congruence|]. cbn. eauto. Qed.
 
-Lemma max_failure_text : forall l,
-  l <> [] -> (forall r, In r l -> r = VRaised) -> max_failure l = Some MaxText.
+Lemma max_code_range : forall l m,
+  max_code l = Some m -> (forall code, In code l -> sec_reason code = true) -> sec_reason m = true.
 Proof.
-  induction l as [|r rest IH]; intros Hne Hall; [congruence|].
-  rewrite (Hall r (or_introl eq_refl)).
-  destruct rest as [|r2 rest2]; [reflexivity|].
-  remember (r2 :: rest2) as l2. cbn [max_failure].
-  rewrite IH; [reflexivity|subst; discriminate|intros x Hx; apply Hall; right; exact Hx].
+  induction l as [|code rest IH]; intros m Hm Hall; [discriminate|].
+  cbn [max_code] in Hm. pose proof (Hall code (or_introl eq_refl)) as Hc.
+  destruct (max_code rest) as [x|] eqn:E.
+  - assert (Hx : sec_reason x = true) by (apply IH; [reflexivity|intros y Hy; apply Hall; right; exact Hy]).
+    inversion Hm; subst m. unfold sec_reason in *. lia.
+  - inversion Hm; subst m. exact Hc.
 Qed.
 
 (** * One verification step *)
-
-Lemma conclude_cases : forall st v fl,
-  (fl = [] -> conclude st v fl = (mkCS (c_deliver st) (c_delete st) v, Continue))
-  /\ (fl <> [] ->
-      exists st' f, conclude st v fl = (st', f) /\ c_deliver st' = false /\ c_view st' = v
-        /\ ((f = Raised /\ c_delete st' = c_delete st) \/ (f = Interrupt /\ exists r, c_delete st' = Some r))).
-Proof.
-  intros st v fl. split.
-  - intros ->. reflexivity.
-  - intro Hne. unfold conclude.
-    destruct (max_failure fl) as [[code| |]|] eqn:E.
-    + eexists _, _. split; [reflexivity|]. cbn. repeat split. right. split; [reflexivity|eauto].
-    + eexists _, _. split; [reflexivity|]. cbn. repeat split. right. split; [reflexivity|eauto].
-    + eexists _, _. split; [reflexivity|]. cbn. repeat split. left. split; reflexivity.
-    + apply max_failure_none in E. congruence.
-Qed.
 
 Lemma sec_step_unfold : forall c bcb secs st,
   c_deliver st = true ->
@@ -146,44 +121,31 @@ Lemma sec_step_clean : forall c bcb secs st,
   (mkCS true (c_delete st) (fst (verify_all c (of_kind bcb secs) (c_view st))), Continue).
 Proof.
   intros c bcb secs st Hd Hf. rewrite sec_step_unfold by exact Hd. rewrite Hf.
-  destruct (conclude_cases st (fst (verify_all c (of_kind bcb secs) (c_view st))) []) as [H _].
-  rewrite H by reflexivity. rewrite Hd. reflexivity.
+  unfold conclude. cbn [max_code]. rewrite Hd. reflexivity.
 Qed.
 
-(** A step with a failing block removes 'deliver' and stops the chain. *)
+(** A step with a block that does not verify removes 'deliver', records 'delete' with the largest code
+    of the step and stops the chain. *)
 Lemma sec_step_dirty : forall c bcb secs st,
   c_deliver st = true -> failures (of_kind bcb secs) <> [] ->
-  exists st' f, sec_step c bcb secs st = (st', f) /\ c_deliver st' = false
-    /\ ((f = Raised /\ c_delete st' = c_delete st) \/ (f = Interrupt /\ exists r, c_delete st' = Some r)).
+  exists v m, sec_step c bcb secs st = (mkCS false (Some m) v, Interrupt)
+              /\ max_code (failures (of_kind bcb secs)) = Some m.
 Proof.
   intros c bcb secs st Hd Hf. rewrite sec_step_unfold by exact Hd.
-  destruct (conclude_cases st (fst (verify_all c (of_kind bcb secs) (c_view st))) (failures (of_kind bcb secs))) as [_ H].
-  destruct (H Hf) as [st' [f [E [H1 [_ H2]]]]]. exists st', f. auto.
-Qed.
-
-Definition not_delivered (r : result) : Prop :=
-  r_reached r = false /\ r_app r = None /\ (r_out r = Dropped \/ exists x, r_out r = Deleted x).
-
-Lemma stopped_not_delivered : forall st f,
-  c_deliver st = false ->
-  ((f = Raised /\ c_delete st = None) \/ (f = Interrupt /\ exists r, c_delete st = Some r)) ->
-  not_delivered (mkRes false None (finish st)).
-Proof.
-  intros st f Hd H. unfold not_delivered, finish. cbn [r_reached r_app r_out].
-  split; [reflexivity|]. split; [reflexivity|].
-  destruct H as [[_ E]|[_ [r E]]]; rewrite E.
-  - rewrite Hd. left. reflexivity.
-  - right. eauto.
+  destruct (max_code_some _ Hf) as [m Em]. unfold conclude. rewrite Em. eauto.
 Qed.
 
 Lemma failures_cons_dec : forall l, {failures l = []} + {failures l <> []}.
 Proof. intro l. destruct (failures l); [left; reflexivity|right; discriminate]. Qed.
 
-(** For any number and order of blocks: one visible block that does not verify and the bundle is
-    not delivered. *)
-Theorem never_delivered : forall c secs data,
+(** The code recorded when some visible block does not verify: the largest code of the first step
+    (BCBs, then BIBs) that has such a block. *)
+Lemma deleted_with_max : forall c secs data,
   (exists s, In s secs /\ s_visible s = true /\ blk_result s <> VNone) ->
-  not_delivered (recv_sec c secs data).
+  exists bcb m,
+    max_code (failures (of_kind bcb secs)) = Some m
+    /\ r_reached (recv_sec c secs data) = false /\ r_app (recv_sec c secs data) = None
+    /\ r_out (recv_sec c secs data) = Deleted m.
 Proof.
   intros c secs data [s [Hin [Hvis Hbad]]].
   unfold recv_sec, chain.
@@ -197,64 +159,43 @@ Proof.
     { intro F2. destruct (s_bcb s) eqn:K.
       - rewrite failures_nil in F1. apply Hbad, F1, in_of_kind. auto.
       - rewrite failures_nil in F2. apply Hbad, F2, in_of_kind. auto. }
-    destruct (sec_step_dirty c false secs st1 Hd1 F2) as [st2 [f [E [Hd2 Hc]]]].
-    rewrite E.
-    assert (R : not_delivered (mkRes false None (finish st2))).
-    { apply (stopped_not_delivered st2 f Hd2). destruct Hc as [[-> Hc]|[-> Hc]]; [left|right]; auto. }
-    destruct f; [|exact R|exact R].
-    destruct Hc as [[Hc _]|[Hc _]]; discriminate.
-  - destruct (sec_step_dirty c true secs st0 Hd0 F1) as [st1 [f [E [Hd1 Hc]]]].
-    rewrite E.
-    assert (R : not_delivered (mkRes false None (finish st1))).
-    { apply (stopped_not_delivered st1 f Hd1). destruct Hc as [[-> Hc]|[-> Hc]]; [left|right]; auto. }
-    destruct f; [|exact R|exact R].
-    destruct Hc as [[Hc _]|[Hc _]]; discriminate.
+    destruct (sec_step_dirty c false secs st1 Hd1 F2) as [v [m [E Em]]].
+    rewrite E. exists false, m. cbn. auto.
+  - destruct (sec_step_dirty c true secs st0 Hd0 F1) as [v [m [E Em]]].
+    rewrite E. exists true, m. cbn. auto.
 Qed.
 
-(** When no exception escapes a verification call, the bundle is marked deleted with the largest of
-    the failure codes of the step that failed. *)
-Lemma sec_step_codes : forall c bcb secs st,
-  c_deliver st = true -> failures (of_kind bcb secs) <> [] ->
-  (forall s, In s secs -> s_visible s = true -> blk_result s <> VRaised) ->
-  (forall s code, In s secs -> s_visible s = true -> blk_result s = VCode code -> sec_reason code = true) ->
-  exists v m, sec_step c bcb secs st = (mkCS false (Some (RCode m)) v, Interrupt) /\ sec_reason m = true.
-Proof.
-  intros c bcb secs st Hd Hf Hnr Hcodes. rewrite sec_step_unfold by exact Hd.
-  destruct (max_failure_codes (failures (of_kind bcb secs)) Hf) as [m [Em Hm]].
-  { intros r Hr. pose proof (failures_no_vnone _ _ Hr) as Hnn.
-    destruct (failures_in _ _ Hr) as [s [Hs Es]]. apply in_of_kind in Hs. destruct Hs as [Hs [Hv _]].
-    destruct r as [|code|].
-    - congruence.
-    - exists code. split; [reflexivity|]. eapply Hcodes; eauto.
-    - exfalso. eapply Hnr; eauto. }
-  unfold conclude. rewrite Em. eexists _, m. split; [reflexivity|exact Hm].
-Qed.
-
-Theorem fail_closed_no_raise : forall c secs data,
+(** For any number and order of blocks: one visible block that does not verify and the bundle is not
+    delivered but marked deleted. *)
+Theorem never_delivered : forall c secs data,
   (exists s, In s secs /\ s_visible s = true /\ blk_result s <> VNone) ->
-  (forall s, In s secs -> s_visible s = true -> blk_result s <> VRaised) ->
+  r_reached (recv_sec c secs data) = false /\ r_app (recv_sec c secs data) = None
+  /\ exists code, r_out (recv_sec c secs data) = Deleted code.
+Proof.
+  intros c secs data H. destruct (deleted_with_max c secs data H) as [bcb [m [_ [H1 [H2 H3]]]]].
+  split; [exact H1|]. split; [exact H2|]. exists m. exact H3.
+Qed.
+
+Lemma FAILED_SEC_reason : sec_reason FAILED_SEC = true.
+Proof. reflexivity. Qed.
+
+(** ... and the reason is a security reason, whether the context answered a code or an exception escaped it. *)
+Theorem fail_closed : forall c secs data,
+  (exists s, In s secs /\ s_visible s = true /\ blk_result s <> VNone) ->
   (forall s code, In s secs -> s_visible s = true -> blk_result s = VCode code -> sec_reason code = true) ->
   r_reached (recv_sec c secs data) = false /\ r_app (recv_sec c secs data) = None
-  /\ exists code, r_out (recv_sec c secs data) = Deleted (RCode code) /\ 12 <= code <= 16.
+  /\ exists code, r_out (recv_sec c secs data) = Deleted code /\ 12 <= code <= 16.
 Proof.
-  intros c secs data [s [Hin [Hvis Hbad]]] Hnr Hcodes.
-  unfold recv_sec, chain.
-  set (st0 := mkCS true None (view_of secs data)).
-  assert (Hd0 : c_deliver st0 = true) by reflexivity.
-  destruct (failures_cons_dec (of_kind true secs)) as [F1|F1].
-  - rewrite (sec_step_clean c true secs st0 Hd0 F1).
-    set (st1 := mkCS true (c_delete st0) _).
-    assert (Hd1 : c_deliver st1 = true) by reflexivity.
-    assert (F2 : failures (of_kind false secs) <> []).
-    { intro F2. destruct (s_bcb s) eqn:K.
-      - rewrite failures_nil in F1. apply Hbad, F1, in_of_kind. auto.
-      - rewrite failures_nil in F2. apply Hbad, F2, in_of_kind. auto. }
-    destruct (sec_step_codes c false secs st1 Hd1 F2 Hnr Hcodes) as [v [m [E Hm]]].
-    rewrite E. cbn. split; [reflexivity|]. split; [reflexivity|]. exists m. split; [reflexivity|].
-    unfold sec_reason in Hm. lia.
-  - destruct (sec_step_codes c true secs st0 Hd0 F1 Hnr Hcodes) as [v [m [E Hm]]].
-    rewrite E. cbn. split; [reflexivity|]. split; [reflexivity|]. exists m. split; [reflexivity|].
-    unfold sec_reason in Hm. lia.
+  intros c secs data H Hcodes. destruct (deleted_with_max c secs data H) as [bcb [m [Em [H1 [H2 H3]]]]].
+  split; [exact H1|]. split; [exact H2|]. exists m. split; [exact H3|].
+  assert (Hm : sec_reason m = true).
+  { apply (max_code_range _ _ Em). intros code Hc.
+    destruct (failures_in _ _ Hc) as [x [Hx Ex]]. apply in_of_kind in Hx. destruct Hx as [Hx [Hv _]].
+    destruct (blk_result x) as [|k|] eqn:R; cbn [step_code] in Ex.
+    - discriminate.
+    - inversion Ex; subst k. eapply Hcodes; eauto.
+    - inversion Ex; subst code. exact FAILED_SEC_reason. }
+  unfold sec_reason in Hm. lia.
 Qed.
 
 (** * Pass-through *)
@@ -512,27 +453,6 @@ Proof.
   - eexists _, _. vm_compute. split; reflexivity.
 Qed.
 
-(** a BIB naming a target block that does not exist: KeyError escapes [verify_bib] *)
-Definition w_raise : list secblk := [mkSec false 2 true true PreOk [(77, TRaise)]].
-(** the same after a BIB that fails with a code *)
-Definition w_mixed : list secblk :=
-  [mkSec false 2 true true PreOk [(1, TFail FAILED_SEC)]; mkSec false 3 true true PreOk [(77, TRaise)]].
-
-Lemma reason_refuted :
-  (exists c secs data,
-     (exists s, In s secs /\ s_visible s = true /\ blk_result s <> VNone)
-     /\ r_out (recv_sec c secs data) = Deleted RText)
-  /\ (exists c secs data,
-     (exists s, In s secs /\ s_visible s = true /\ blk_result s <> VNone)
-     /\ r_out (recv_sec c secs data) = Dropped).
-Proof.
-  split.
-  - exists (mkCfg false), w_raise, [(1, 9)]. split; [|reflexivity].
-    eexists. split; [left; reflexivity|]. split; [reflexivity|]. vm_compute. discriminate.
-  - exists (mkCfg false), w_mixed, [(1, 9)]. split; [|reflexivity].
-    eexists. split; [left; reflexivity|]. split; [reflexivity|]. vm_compute. discriminate.
-Qed.
-
 (** two BIBs, the first verifies and is accepted (removed), the second does not verify *)
 Definition w_second_bad : list secblk :=
   [mkSec false 2 true true PreOk [(1, TOk 0)]; mkSec false 3 true true PreOk [(5, TFail FAILED_SEC)]].
@@ -541,7 +461,7 @@ Lemma live_iteration_refuted :
   exists c secs data,
     (exists s, In s secs /\ s_visible s = true /\ blk_result s <> VNone)
     /\ (exists p v, r_out (recv_sec_live c secs data) = Delivered p v)
-    /\ r_out (recv_sec c secs data) = Deleted (RCode FAILED_SEC).
+    /\ r_out (recv_sec c secs data) = Deleted FAILED_SEC.
 Proof.
   exists (mkCfg true), w_second_bad, [(5, 6); (1, 9)]. split; [|split].
   - eexists. split; [right; left; reflexivity|]. split; [reflexivity|]. vm_compute. discriminate.
